@@ -720,8 +720,12 @@ where
             );
             let u_run_2 = self.rng.random::<T>();
             #[cfg(mini_mcmc_verif)]
-            let verif_accepted = s_prime && (u_run_2 < tmp);
+            let mut verif_accepted = false;
             if s_prime && (u_run_2 < tmp) {
+                #[cfg(mini_mcmc_verif)]
+                {
+                    verif_accepted = true;
+                }
                 self.position = position_prime;
             }
             n += n_prime;
